@@ -117,6 +117,12 @@ def generate(seed, tier):
         if g.chance(0.6):
             quads.append([top, pr, ["b", "n3"], gr])
             quads.append([["b", "n3"], g.pick(preds[:2]), ["l", "side", "en", None], gr])
+    if g.chance(0.15 if fmt != "xml" else 0.3):
+        # a reified statement (RDF/XML can write it as rdf:ID on the property element)
+        base_q = g.pick([q for q in quads if q[3] is None and not q[1][1].startswith(writers.RDF + "_")] or [quads[0]])
+        who = u(g.choice(["ns#stmt1", "doc#r-1", "#top"]))
+        for pr_, ob_ in (("type", ["u", writers.RDF + "Statement"]), ("subject", base_q[0]), ("predicate", base_q[1]), ("object", base_q[2])):
+            quads.append([who, ["u", writers.RDF + pr_], ob_, base_q[3]])
     if fmt == "xml" and g.chance(0.25):
         # (RDF/XML has rdf:parseType="Literal" for these)
         quads.append([g.pick(subs), g.pick([x for x in preds if not x[1].endswith("type")]), ["l", g.choice(["a <b>c</b> d", "x &amp; y", '<b a="1&amp;2">t</b>', "plain"]), None, writers.RDF + "XMLLiteral"], None])
